@@ -430,7 +430,7 @@ void dispatchValue(GenState &gs, Node *c, RegisterIndex tgt) {
         if (funcname == "__INC__")
           gs.emit(Instruction::Add(tgt, arglocs[0], cs));
         else
-          gs.emit(Instruction::Add(tgt, arglocs[0], -cs));
+          gs.emit(Instruction::Add(tgt, arglocs[0], (int)-(long)cs));
         break;
       }
 
